@@ -766,10 +766,145 @@ def DInv (enc : Nat → List Nat) (s : DSt) : Prop :=
   ∀ k, (∀ v, s.base.cache k = some v → s.file k = .closed (enc v)) ∧
        (s.base.cache k = none → partialWriter s.base k = false → s.file k = .absent)
 
+/-- what is left to write for caller `i` (successful getter): chunks still missing + the close -/
+def writeLeft (enc : Nat → List Nat) (s : DSt) (i : Nat) : Nat :=
+  match s.base.cs[i]? with
+  | some c =>
+    (match c.pc with
+     | .gsPopW k (.ok v) => (match s.file k with | .opened w => (enc v).length + 1 - w.length | _ => 0)
+     | _ => 0)
+  | none => 0
+
 /-- the same two callers WITHOUT ConcurrentCacher (a bare DiskCacher shared by two processes): the reader's
 `get_set` runs while the writer's file is open -/
 def rawDiskRace (written : List Nat) : DiskRead := diskRead (.opened written)
 
+
+/-! ### Phase 5: ghost clock — get_set-only programs on collision-free keys have no wait-for cycle
+
+`GSt` instruments `St` with a global clock (one tick per step), the time `tm i` of caller `i`'s latest miss
+(`contains _ false`) and the time `tp k` at which key `k` was populated last (`cpop k _`).  The instrumentation only
+observes: `gstep` takes exactly the steps of `step` (refinement in both directions, `ghost_refines`).  Without `rmv` a
+cached key stays cached, so a caller that waits for the write lock of `k` (it missed `k` at `tm i`) can only be blocked by
+a with-block holder that entered `k` after `k` was populated, i.e. after `tm i`; if that holder waits too its own miss is
+later still: `tm` strictly increases along wait-for edges between waiting callers. -/
+
+/-- the key the caller missed at its first check and is about to populate (`gsRelR`, `gsAcqW`) -/
+def Pc.missKey : Pc → Option Nat
+  | .gsRelR k _ => some k | .gsAcqW k _ => some k | _ => none
+
+def evMiss : Ev → Bool
+  | .contains _ false => true | _ => false
+
+def evPopKey : Ev → Option Nat
+  | .cpop k _ => some k | _ => none
+
+structure GSt where
+  base : St
+  clock : Nat
+  tm : Nat → Nat     -- caller ↦ time of its latest miss
+  tp : Nat → Nat     -- key ↦ time of its latest successful populate
+
+def gstep (idx : Nat → Nat) (g : GSt) (i : Nat) : Option (Ev × GSt) :=
+  match step idx g.base i with
+  | none => none
+  | some (ev, s') =>
+    some (ev, { base := s', clock := g.clock + 1,
+                tm := if evMiss ev then upd g.tm i g.clock else g.tm,
+                tp := match evPopKey ev with | some k => upd g.tp k g.clock | none => g.tp })
+
+def ginit (progs : List (List (List Instr))) : GSt :=
+  { base := init progs, clock := 0, tm := fun _ => 0, tp := fun _ => 0 }
+
+inductive GReachable (idx : Nat → Nat) (progs : List (List (List Instr))) : GSt → Prop
+  | init : GReachable idx progs (ginit progs)
+  | step {g g' i ev} : GReachable idx progs g → gstep idx g i = some (ev, g') → GReachable idx progs g'
+
+/-- run a schedule in the instrumented system (entries without a step are skipped, as in `run`) -/
+def grun (idx : Nat → Nat) : GSt → List Nat → GSt
+  | g, [] => g
+  | g, i :: is =>
+    match gstep idx g i with
+    | none => grun idx g is
+    | some (_, g') => grun idx g' is
+
+def Instr.isRmv : Instr → Bool
+  | .rmv _ _ _ => true | _ => false
+
+/-- the program uses `get_set` (with-blocks, exits, raising bodies) only -/
+def GetSetOnly (prog : List (List Instr)) : Bool := prog.all (fun seg => seg.all (fun ins => !ins.isRmv))
+
+/-- the key an instruction operates on -/
+def Instr.key? : Instr → Option Nat
+  | .getSet k _ => some k | .rmv k _ _ => some k | _ => none
+
+/-- all keys the programs mention -/
+def progKeys (progs : List (List (List Instr))) : List Nat :=
+  progs.flatMap (fun p => p.flatMap (fun seg => seg.filterMap Instr.key?))
+
+/-- no two different keys of the programs share a slot of the lock table -/
+def CollisionFree (idx : Nat → Nat) (progs : List (List (List Instr))) : Bool :=
+  (progKeys progs).all (fun a => (progKeys progs).all (fun b => idx a != idx b || a == b))
+
+/-- the ghost invariant, as a decidable check over the given keys (evaluated by the driver on every replayed run) -/
+def GSt.stampsOK (g : GSt) (keys : List Nat) : Bool :=
+  keys.all (fun k => match g.base.cache k with | some _ => decide (g.tp k < g.clock) | none => true) &&
+  (List.range g.base.cs.length).all (fun j =>
+    match g.base.cs[j]? with
+    | some c =>
+      match c.pc.missKey with
+      | some k => decide (g.tm j < g.clock) && c.stack.all (fun k' => decide (g.tp k' < g.tm j)) &&
+                  (match g.base.cache k with | some _ => decide (g.tm j < g.tp k) | none => true)
+      | none => true
+    | none => true)
+
+
+/-! ### Phase 5: the protocol as the source spells it (compared with `Generated/C19Protocol.lean`, extracted with `ast`) -/
+
+/-- the calls of `ConcurrentCacher` behind one model event, in the translator's call codes: 1 `_acquire_read_lock`, 2 `_release_read_lock`,
+3 `_acquire_write_lock`, 4 `_release_write_lock`, 5 `_switch_write_to_read_lock`, 6 `key in …`, 7 `_cache.get_set(key, None)`,
+8 `_cache.get_set(key, getter)`, 9 `_has_read_lock`, 10 `_has_write_lock` (the two tests of the `except:` handler, `toHandler`),
+11 `_release_read_on_exit`, 12 `return`, 13 `_cache.rmv` -/
+def evCalls : Ev → List Nat
+  | .acqR _ => [1] | .relR _ => [2] | .acqW _ => [3] | .relW _ => [4] | .sw _ => [5]
+  | .contains _ _ => [6] | .cget _ _ => [7] | .ccreate _ => [8] | .cpopFail _ => [9, 10]
+  | .enter _ _ => [11, 12] | .crmv _ _ => [13] | .crmvFail _ => [13]
+  | _ => []
+
+def callsOf (evs : List (Nat × Ev)) : List Nat := evs.flatMap (fun e => evCalls e.2)
+
+/-- a one-caller state: key 0 cached (value 7) or not -/
+def protoSt (cached : Bool) (c : Caller) : St :=
+  { arr := fun _ => 0, cache := fun k => if cached && k == 0 then some 7 else none, cs := [c] }
+
+/-- the calls the MODEL makes for one `get_set(0, getter)`: `in1` / `in2` = the entry is cached at the first / second membership test,
+`fails` = the getter raises.  Computed by running `step`: from the start of the operation to the first miss, and from the write-lock
+request on (another caller may have populated the entry in between, hence the second start state). -/
+def modelGetSetPath (in1 in2 fails : Bool) : List Nat :=
+  let g := if fails then Getter.fail else Getter.ok 1
+  if in1 then callsOf (run id (protoSt true (mkCaller [[.getSet 0 g]])) (List.replicate 6 0)).2
+  else callsOf (run id (protoSt false (mkCaller [[.getSet 0 g]])) (List.replicate 5 0)).2 ++
+       callsOf (run id (protoSt in2 { pc := .gsAcqW 0 g, cur := [], rest := [], stack := [], book := fun _ => 0, tn := false }) (List.replicate 6 0)).2
+
+/-- the calls the model makes for one `rmv(0)` -/
+def modelRmvPath (inSelf fails : Bool) : List Nat :=
+  callsOf (run id (protoSt inSelf (mkCaller [[.rmv 0 fails false]])) (List.replicate 6 0)).2
+
+/-- guard of a lock block as extracted: (op, constant), op 0 `==`, 1 `>=`, 2 `>`, 3 `<=`, 4 `<`, 5 `!=` -/
+def guardHolds (g : Nat × Int) (x : Int) : Bool :=
+  match g.1 with
+  | 0 => x == g.2 | 1 => decide (x ≥ g.2) | 2 => decide (x > g.2) | 3 => decide (x ≤ g.2) | 4 => decide (x < g.2) | _ => x != g.2
+
+/-- update of a lock block as extracted: (op, constant), op 0 `=`, 1 `+=`, 2 `-=` -/
+def applyUpd (u : Nat × Int) (x : Int) : Int :=
+  match u.1 with
+  | 0 => u.2 | 1 => x + u.2 | _ => x - u.2
+
+/-- key identity the model assumes (files and lock slots are both indexed by the key itself): the expression that becomes the file
+name in `DiskCacher._cache_name` and the one hashed by `ConcurrentCacher._index` -/
+def modelCacheNameKeyExpr : String := "key"
+def modelCacheNameSuffix : String := ".gz"
+def modelIndexKeyExpr : String := "str(key).encode('utf-8')"
 
 /-! ### constants the model assumes (compared with the ones extracted from the source, `Generated/C19Consts.lean`) -/
 /-- permits of the `openml_semaphore` CobaMultiprocessor installs -/
